@@ -19,6 +19,10 @@ DelAm(id)      == Call("del", id, 0, NoExp, FALSE, FALSE, FALSE, FALSE, TRUE)
 \* a Value: one id, always present
 ValPrograms == { Set(1, 1), Set(1, 2), Cas(1, 0, 2), Cas(1, 1, 3), Inc(1, 1), Inc(1, 2), Chk(1, 3) }
 ValStores == { [i \in {1} |-> 0], [i \in {1} |-> 1] }
+\* a Value that was given no initial value: nothing is stored until the first Set, which always "creates"
+\* (expected-value options are left out: against nothing they fail, which the creating path here does not say)
+ChkUp(id, v)   == Call("upd", id, v, NoExp, TRUE, FALSE, TRUE, FALSE, FALSE)
+Val0Programs == { Upsert(1, 1), Upsert(1, 2), IncUp(1, 1), IncUp(1, 2), ChkUp(1, 3) }
 \* a Collection
 CollPrograms == { Set(1, 1), Cas(1, 1, 2), Inc(1, 1), IncUp(1, 2), Add(1, 1), Add(1, 2), Upsert(1, 3), Chk(1, 2),
                   Del(1), DelExp(1, 1), DelAm(1) }
@@ -32,11 +36,14 @@ SubCollPrograms == { Set(1, 1), Add(1, 2), Upsert(1, 3), IncUp(1, 1), Del(1) }
 \* the smallest setting in which a change can be both in a subscriber's snapshot and delivered to it
 AttackLossyPrograms == { IncUp(1, 1), Add(1, 2), Del(1) }
 AbsentStore == { [i \in {1} |-> Absent] }
-KindsUo == { [uo |-> TRUE, lossy |-> FALSE], [uo |-> FALSE, lossy |-> FALSE] }
+KindsUo == { [uo |-> TRUE, lossy |-> FALSE, masked |-> FALSE], [uo |-> FALSE, lossy |-> FALSE, masked |-> FALSE] }
 GcPrograms == { Set(1, 1), IncUp(1, 1), Upsert(1, 2) }
-KindLossySeed == { [uo |-> FALSE, lossy |-> TRUE] }
-Kinds == { [uo |-> FALSE, lossy |-> FALSE], [uo |-> TRUE, lossy |-> FALSE] }
-KindsLossy == { [uo |-> FALSE, lossy |-> TRUE], [uo |-> TRUE, lossy |-> TRUE], [uo |-> FALSE, lossy |-> FALSE] }
+KindLossySeed == { [uo |-> FALSE, lossy |-> TRUE, masked |-> FALSE] }
+\* two subscribers of which one has a read mask (what it is handed is a projection made for it alone)
+KindsMask == { [uo |-> FALSE, lossy |-> FALSE, masked |-> TRUE], [uo |-> FALSE, lossy |-> FALSE, masked |-> FALSE],
+               [uo |-> TRUE, lossy |-> FALSE, masked |-> TRUE] }
+Kinds == { [uo |-> FALSE, lossy |-> FALSE, masked |-> FALSE], [uo |-> TRUE, lossy |-> FALSE, masked |-> FALSE] }
+KindsLossy == { [uo |-> FALSE, lossy |-> TRUE, masked |-> FALSE], [uo |-> TRUE, lossy |-> TRUE, masked |-> FALSE], [uo |-> FALSE, lossy |-> FALSE, masked |-> FALSE] }
 
 W1 == {1}  W2 == {1, 2}  W3 == {1, 2, 3}
 S0 == {}   S1 == {1}     S2 == {1, 2}
